@@ -129,3 +129,43 @@ def gen(rng, n):
     for i in range(n):
         out.append(case(config(rng), sensible(rng) if rng.random() < 0.5 else history(rng)))
     return out
+
+
+# ---------------------------------------------------------------- AUTH (configuration auth=1: checkpassword stand-in, password "secret")
+import base64
+def auth_line(rng, kind):
+    def plain(authz, user, pw): return b'AUTH PLAIN ' + base64.b64encode(authz + b'\0' + user + b'\0' + pw) + b'\r\n'
+    user = rng.choice([b'alice', b'bob@example.org', b'u'])
+    if kind == 'good': return plain(rng.choice([b'', b'', b'admin']), user, b'secret')
+    if kind == 'wrongpw': return plain(b'', user, rng.choice([b'Secret', b'secre', b'secret1', b'x']))
+    if kind == 'nopw': return rng.choice([plain(b'', user, b''), b'AUTH PLAIN ' + base64.b64encode(b'\0' + user) + b'\r\n',
+                                           b'AUTH PLAIN ' + base64.b64encode(user) + b'\r\n', b'AUTH PLAIN ' + base64.b64encode(b'\0\0secret') + b'\r\n'])
+    if kind == 'crash': return plain(b'', b'crash', b'secret')
+    if kind == 'mech': return rng.choice([b'AUTH FOO\r\n', b'AUTH PLAINX abc\r\n', b'AUTH GSSAPI\r\n', b'AUTH PLAI\r\n'])
+    if kind == 'b64': return rng.choice([b'AUTH PLAIN !!!!\r\n', b'AUTH PLAIN AGFsaWNlAHNlY3JldA\r\n'])     # not base64 / not padded
+    return b'AUTH\r\n'
+
+
+def auth_session(rng):
+    """histories mixing EHLO/HELO, failed and successful AUTH, RSET and several transactions, aimed at the question
+    'is this client entitled to relay now?'"""
+    chunks = [rng.choice([b'EHLO c.example.net\r\n', b'EHLO c.example.net\r\n', b'HELO c.example.net\r\n'])]
+    authed = False
+    for _ in range(rng.choice([1, 2, 3])):
+        for _ in range(rng.choice([0, 1, 1, 2])):
+            k = rng.choice(['good', 'wrongpw', 'wrongpw', 'nopw', 'crash', 'mech', 'bare'] + (['good'] if not authed else []))
+            chunks.append(auth_line(rng, k)); authed = authed or k == 'good'
+        if rng.random() < 0.3: chunks.append(rng.choice([b'RSET\r\n', b'EHLO again.example.net\r\n', b'HELO again.example.net\r\n', b'NOOP\r\n']))
+        if rng.random() < 0.25:
+            # a greeting that is refused (blank inside the argument), then what a client may try next
+            chunks.append(rng.choice([b'EHLO client example\r\n', b'HELO client example\r\n', b'EHLO a b\r\n']))
+            if rng.random() < 0.7: chunks.append(rng.choice([b'RSET\r\n', b'NOOP\r\n']))
+            chunks.append(auth_line(rng, rng.choice(['good', 'good', 'wrongpw'])))
+        chunks.append(mail(rng, rng.choice(['ok', 'ok', 'bounce'])))
+        if rng.random() < 0.15: chunks.append(auth_line(rng, 'good'))           # AUTH inside a transaction: bad sequence
+        for _ in range(rng.choice([1, 2, 3])):
+            chunks.append(rcpt(rng, rng.choice(['remote', 'remote', 'ok', 'rbad'])))
+        chunks.append(b'DATA\r\n'); chunks.append(b'Subject: t\r\n\r\nbody\r\n.\r\n')
+    return chunks
+
+
